@@ -51,8 +51,19 @@ int main(void){
   os_split(st, sn, &ss); os_split(bt, bn, &bs);
   root = uk_choice(2, "domainRoot");
   ro_uri(&S); ro_uri(&B);
+  mm_armed = 1;
   rc = U(uriRemoveBaseUriMm)(&D, &S, &B, root ? URI_TRUE : URI_FALSE, &mm);
+  mm_armed = 0;
   rw_uri(&S); rw_uri(&B);
+#ifdef FAILING
+  if (mm_failed){
+    uk_assert(rc == URI_ERROR_MALLOC, "C14: reference creation with a failed allocation returns URI_ERROR_MALLOC");
+    U(uriFreeUriMembersMm)(&D, &mm);
+    U(uriFreeUriMembersMm)(&S, &mm); U(uriFreeUriMembersMm)(&B, &mm);
+    uk_assert(uk_live() == 0, "C14: nothing stays allocated after a failed reference creation and cleanup of the output");
+    uk_cover("alloc-failure-injected"); return 0;
+  }
+#endif
   if (bs.sch_a < 0 || ss.sch_a < 0){
     if (bs.sch_a < 0) uk_assert(rc == URI_ERROR_REMOVEBASE_REL_BASE, "C10: a base without scheme is rejected with URI_ERROR_REMOVEBASE_REL_BASE");
     else uk_assert(rc == URI_ERROR_REMOVEBASE_REL_SOURCE, "C10: a source without scheme is rejected with URI_ERROR_REMOVEBASE_REL_SOURCE");
